@@ -214,7 +214,11 @@ impl<'ctx> Ledger<'ctx> {
                 target,
             }) => {
                 let mut converted = Balance::default();
-                for (account, original_amount) in balance.iter() {
+                // walk the accounts in a fixed order, so that the failure reported
+                // (if any) doesn't depend on the hash seed.
+                let mut accounts: Vec<_> = balance.iter().collect();
+                accounts.sort_unstable_by_key(|(account, _)| account.as_str());
+                for (account, original_amount) in accounts {
                     converted.add_amount(
                         *account,
                         price_db::convert_amount(
